@@ -391,6 +391,43 @@ def unit_ops_bounded(chunk):
     return u
 
 
+def unit_names_bounded(chunk):
+    """bounded stand-in (never counted as proved): the text form of concrete values - every declared single value and, for each
+    named range, its first three, one in the middle and its last two members - against the declared name computed from the
+    pinned layout; it decides where the symbolic string comparison is undecided (texts of another shape)"""
+    u = UnitResult(f"XNAMES/{chunk[0]}..{chunk[-1]}")
+    u.functions = FUNCS
+    L = layout()["primitives"]
+    dis, n = [], 0
+    for tname in chunk:
+        T = get_type(tname)
+        for it in L[tname]["allowed"]:
+            if "owner" not in it:
+                continue
+            if "point" in it:
+                cases = [(it["point"], [f"{it['owner']}.{it['name']}", f"{tname}.{it['name']}"])]
+            else:
+                lo, hi = it["range"]
+                vs = sorted({v for v in (lo, lo + 1, lo + 2, (lo + hi) // 2, hi - 2, hi - 1) if lo <= v < hi})
+                cases = [(v, [f"{q}.{it['base']}{it['sep']}{v - lo:0{it['nibbles']}x}" for q in (it["owner"], tname)]) for v in vs]
+            for v, want in cases:
+                # a value may be declared more than once (aliases): any declared name is fine
+                others = [f"{o['owner']}.{o['name']}" for o in L[tname]["allowed"] if "point" in o and "owner" in o and o["point"] == v] + \
+                         [f"{tname}.{o['name']}" for o in L[tname]["allowed"] if "point" in o and "owner" in o and o["point"] == v]
+                n += 1
+                try:
+                    tv = T(v)
+                    got = {"str": str(tv), "format": format(tv, "")}
+                except Exception as e:  # noqa
+                    got = {"error": f"{type(e).__name__}: {e}"}
+                for how, text in got.items():
+                    if how == "error" or text not in want + others:
+                        dis.append({"input": {"type": tname, "value": hex(v)}, "detail": f"{how}({tname}({v:#x})) = {text!r}, declared name {want[0]!r}", "site": "base_type.py / values.py"})
+    u.bounded.append({"name": f"names/{chunk[0]}..{chunk[-1]}", "bound": "every declared single value; first three, middle and last two members of every named range", "evaluations": n, "disagreements": dis[:8], "all_disagreements": len(dis)})
+    u.obligations.append({"name": f"{u.name}/ran", "kind": "bounded-bookkeeping", "site": "", "status": "proved", "backend": "bookkeeping", "seconds": 0, "model": None, "detail": f"{n} values"})
+    return u
+
+
 def run(tier, seed, only=None, pid="C16", which=("INT", "VALID", "BYTES", "NAME", "HASH", "OPS")):
     rep = Report(pid, tier, seed, "proof", f"./check {pid} (pyvc: the real typed-integer machinery interpreted per class over a symbolic integer; z3/cvc5)",
                  explanation="for each primitive class, every path of the real construction/validity/serialisation/naming/operator code over a symbolic integer in the type's width meets the spec derived from the pinned layout")
@@ -404,6 +441,8 @@ def run(tier, seed, only=None, pid="C16", which=("INT", "VALID", "BYTES", "NAME"
     jobs.append((unit_canary, ()))
     if "OPS" in which:
         jobs += [(unit_ops_bounded, (tuple(names[i:i + 8]),)) for i in range(0, len(names), 8)]
+    if "NAME" in which:
+        jobs += [(unit_names_bounded, (tuple(names[i:i + 13]),)) for i in range(0, len(names), 13)]
     if only:
         jobs = [j for j in jobs if only in repr(j)]
     # biggest first for load balance
